@@ -7,7 +7,7 @@
 From Coq Require Import List ZArith Bool.
 From SVC Require Import Base.AMap Base.Res Model.Types Model.Handlers Model.EndBlock Model.Step
   Proofs.Inv Proofs.CtxOps Proofs.TraceBase Proofs.C12Proofs Proofs.TraceBatch Proofs.ThrProofs
-  Proofs.GapC12.
+  Proofs.GapC12 Proofs.GapC12b.
 Import ListNotations.
 Open Scope Z_scope.
 
@@ -362,3 +362,20 @@ Theorem C12_state_callback_iff_funds_short : forall cfg s c rc,
              = ncbstate c' s + (if eqb c' c && funds_short s rc && negb (c_mod rc =? 0) then 1 else 0).
 Proof. exact GapC12.state_callback_iff_funds_short. Qed.
 Print Assumptions C12_state_callback_iff_funds_short.
+
+(* ---- exactly once, for FINISHED contexts ----
+   C12_callback_once compares the batch events with the record of an existing context.  A context
+   that was removed (one-shot batch over, total reached, killed) has no record left: it stays
+   removed (context ids are never reused), every batch it ever started was completed, exactly
+   once, and its response callbacks are one per completion -- or none at all: the log does not say
+   whether the context belonged to a module (EvCtxCreated carries no module name) *)
+Theorem C12_finished_context_complete : forall cfg s c,
+  wf_cfg cfg -> Reach cfg s -> In (EvCtxRemoved c) (log s) ->
+  get c (ctxs s) = None
+  /\ In (EvCtxCreated c) (log s)
+  /\ (forall n, count (is_start c n) (log s) = count (is_done c n) (log s)
+                /\ count (is_done c n) (log s) <= 1)
+  /\ ((forall n, count (is_cbresp c n) (log s) = count (is_done c n) (log s))
+      \/ (forall n, count (is_cbresp c n) (log s) = 0)).
+Proof. exact GapC12b.finished_context_complete. Qed.
+Print Assumptions C12_finished_context_complete.
